@@ -11,15 +11,20 @@ from mockgen import enc
 # user types: comparators per scope (two scopes, one type name, objects that agree in the first field only), copiers per scope
 MC_CMP = dict(scopes="ScopesGS", fns='"f"', pnames='"p"', vals="ValsObjQ", ns="1", maxexp=1, maxcalls=1, maxinst=1, flags="FALSE")
 MC_CPY = dict(scopes="ScopesGS", fns='"f"', pnames="", onames='"x"', odata="Typed1", ns="1", maxexp=1, maxcalls=1, maxinst=1, flags="FALSE")
+# doubles: one expectation with tolerance 0 / default / small / negative / -inf, one actual value equal, one unit off, on and beyond
+# the edge of the default tolerance
+MC_DBL = dict(fns='"f"', pnames='"p"', vals="ValsDbl", ns="1", maxexp=1, maxcalls=1, flags="FALSE")
 MC_QUICK = [("typed", dict(fns='"f"', pnames="", rets="RetsTyped", getters="GetTyped", maxexp=1, ns="1, 2", maxcalls=2)),
-            ("comparators", MC_CMP), ("copiers", MC_CPY)]
+            ("comparators", MC_CMP), ("copiers", MC_CPY), ("doubles", MC_DBL)]
 MC_THOROUGH = [("typed", dict(fns='"f", "g"', pnames='"p"', rets="RetsTyped", getters="GetTyped", maxexp=1, ns="1, 2", maxcalls=3)),
                ("typed2", dict(fns='"f"', pnames="", rets="RetsTyped", getters="GetTyped", maxexp=2, ns="1", maxcalls=3)),
                ("core", dict(maxcalls=3)),
                ("scopes", dict(scopes="ScopesGS", fns='"f"', ns="1", maxexp=1, maxcalls=3, rets="Rets2", getters="GetTyped")),
                ("comparators", dict(MC_CMP, vals="ValsObj1", maxinst=2, maxcalls=2)), ("comparators3", dict(MC_CMP, scopes="ScopesGST")),
-               ("copiers", dict(MC_CPY, maxinst=2, maxcalls=2))]
+               ("copiers", dict(MC_CPY, maxinst=2, maxcalls=2)), ("doubles", dict(MC_DBL, ns="1, 2", maxcalls=2))]
 GEN = [("bfs", 5, None, None, dict(fns='"f"', ns="1", maxexp=1, maxcalls=2, rets="RetsTyped", getters="GetTyped")),
+       # double parameters: every tolerance class x every distance class, exhaustively for one expectation and one call
+       ("bfsdbl", 5, None, None, dict(fns='"f"', pnames='"p"', vals="ValsDbl", ns="1", maxexp=1, maxcalls=1, rets="Rets1", flags="FALSE")),
        ("sim", 14, 12, 500, dict(pnames='"p", "q"', vals="Vals3", rets="RetsTyped", getters="GetTyped", maxexp=3, ns="0, 1, 2", maxcalls=5)),
        ("simout", 14, 8, 300, dict(fns='"f"', pnames='"p"', rets="Rets3", getters="GetTyped", onames='"x"', odata="Raw2", maxexp=3, ns="1, 2", maxcalls=4)),
        ("simscope", 16, 10, 300, dict(scopes="ScopesGS", fns='"f"', pnames='"p"', rets="RetsTyped", getters="GetTyped", maxexp=2, ns="1, 2",
@@ -162,6 +167,21 @@ def sweep(rng, quick):
     pvals = [enc_int(c, v) for c, v in ints] + others
     if quick:
         pvals = [x for i, x in enumerate(pvals) if i % 3 == 0] + others
+    # doubles: both expectation forms (without a tolerance = the default 0.005 = 5 grid units; with a tolerance: zero = exact,
+    # the default spelled out, tiny, negative, -inf, NaN) x actual values equal, one unit off (less than the default tolerance), on
+    # the edge of the default tolerance and one unit beyond it, on either side
+    Q = G.DEFAULT_TOL_Q
+    for base in (1024, -2560, 0):
+        for tol in ("dflt|0|0", "fin|0|0", "fin|0|%d" % Q, "fin|0|1", "fin|1|-1", "fin|1|-%d" % Q, "fin|1|-4096", "inf|1|0", "nan|0|0", "inf|0|0"):
+            for off in (0, 1, -1, Q, -Q, Q + 1, -Q - 1):
+                if base != 1024 and off not in (0, 1, -Q - 1):
+                    continue
+                e = "D|fin|%d|%d|%s" % (1 if base < 0 else 0, base, tol)
+                a = "D|fin|%d|%d|fin|0|0" % (1 if base + off < 0 else 0, base + off)
+                execs.append([["expect", "", "f", 1, 0, 0, "p=" + e, "-", "-"], ["begin", "", "f"], ["param", "", "p", a], ["ret", "", "value", rng.choice(["call", "support"])], ["check"], ["end"]])
+    for tol in ("fin|1|-1", "fin|0|0", "dflt|0|0", "inf|1|0"):      # an infinity equals itself whatever the tolerance
+        for a in ("D|inf|0|0|fin|0|0", "D|inf|1|0|fin|0|0"):
+            execs.append([["expect", "", "f", 1, 0, 0, "p=D|inf|0|0|" + tol, "-", "-"], ["begin", "", "f"], ["param", "", "p", a], ["check"], ["end"]])
     for e in pvals:
         acts = [e]
         f = e.split("|")
@@ -284,6 +304,35 @@ def removeall_child_family(tns):
     return execs
 
 
+def default_form(ex, rng):
+    """a double expectation whose tolerance is the default one is written, every other time, in the form without a tolerance
+    (withParameter(name, double) / withDoubleParameters) - the same scenario for the specification"""
+    spelled = "|fin|0|%d" % G.DEFAULT_TOL_Q
+    out = []
+    for l in ex:
+        if l[0] == "expect" and l[6] != "-" and spelled in str(l[6]):
+            ps = [(p[:-len(spelled)] + "|dflt|0|0") if (p.split("=", 1)[1].startswith("D|") and p.endswith(spelled) and rng.random() < 0.5) else p
+                  for p in str(l[6]).split(";")]
+            l = list(l[:6]) + [";".join(ps)] + list(l[7:])
+        out.append(l)
+    return out
+
+
+def tolerance_class(ex, i):
+    """for a double parameter of an actual call: the kind of tolerance of the expectation(s) it is compared with"""
+    l = ex[i]
+    cls = set()
+    for x in ex[:i]:
+        if x[0] == "expect" and x[1] == l[1] and x[6] != "-":
+            for p in str(x[6]).split(";"):
+                k, v = p.split("=", 1)
+                f = v.split("|")
+                if k == l[2] and f[0] == "D":
+                    cls.add("default" if f[4] == "dflt" else ("nan" if f[4] == "nan" else (("-inf" if f[5] == "1" else "+inf") if f[4] == "inf" else
+                            ("zero" if int(f[6]) == 0 else ("negative" if int(f[6]) < 0 else "positive")))))
+    return "+".join(sorted(cls)) or "none"
+
+
 def removes_in_child(ex):
     return any(l[0] == "removeall" and l[1] != "" for l in ex)
 
@@ -370,6 +419,8 @@ def detail(ex, i):
     if op == "param":
         f = str(l[3]).split("|")
         nsc = len({x[1] for x in ex[:i] if x[0] == "installcmp" and x[2] == f[1]}) if f[0] == "O" else 0
+        if f[0] == "D":
+            return ":D:tolerance-" + tolerance_class(ex, i)
         return ":" + value_class(l[3]) + (":comparators-in-%d-scopes" % nsc if nsc > 1 else "")
     if op == "setdata":
         return ":" + value_class(l[3])
@@ -488,7 +539,9 @@ def run(ctx):
     ctx.sample({"source": "per-type sweep", "execution": ["\t".join(map(str, l)) for l in sw[len(sw) // 2]]})
     # ---- seeded random scenarios restricted to what both interfaces can express
     n = 150 if quick else 4000
-    rnd = [G.assign_via(G.random_scenario(ctx.rng, typed=True, c_compatible=True), ctx.rng, True)[0] for _ in range(n)]
+    rnd = [G.assign_via(G.random_scenario(ctx.rng, typed=True, c_compatible=True, odd_tolerances=(i % 2 == 0)), ctx.rng, True)[0] for i in range(n)]
+    rnd = [default_form(e, ctx.rng) for e in rnd]
+    main = [default_form(e, ctx.rng) for e in main]
     ctx.notes["executions"] = {"tlc_generated": len(main), "per_type_sweep": len(sw), "random": len(rnd)}
     both("main", main + sw + rnd, {"leg": "main"})
     # ---- the two scenario families in which the C layer's single static "current call" shows (each keyed by its family)
@@ -525,7 +578,10 @@ def run(ctx):
              "mockgen.install_plan); each is executed twice, through mock() and through mock_c(), as the body of a fixture test; "
              "distinct = distinct scripts with at least one actual call or data read",
         distinct_nontrivial=len(distinct), exhaustive=False,
-        assumptions=["scenarios expressible in both interfaces: no onObject (absent from the C interface), the sub-calls of one actual call are contiguous, "
+        assumptions=["doubles: finite values are multiples of 2^-10 (the default tolerance 0.005 = 5 units); an expectation's tolerance may be zero, "
+                     "negative, -inf or NaN (the specification states what doubles_equal does: |expected - actual| <= tolerance, the same infinity "
+                     "equal to itself, NaN equal to nothing); both expectation forms (with and without a tolerance) in both interfaces",
+                     "scenarios expressible in both interfaces: no onObject (absent from the C interface), the sub-calls of one actual call are contiguous, "
                      "a return value is read only after an actual call of the same test (the three families that leave this frame are run and keyed separately)",
                      "failure texts are compared after replacing hexadecimal addresses",
                      "an object read back through the C tagged union carries no type name; only its content is compared",
